@@ -63,6 +63,10 @@ pub enum Decision {
     DelayPastTimeout,
     /// the connection is closed instead
     Close,
+    /// the genuine frame arrives, then the peer resets the connection (writes fail)
+    DeliverThenReset,
+    /// the genuine frame arrives, then the peer stops reading (writes never complete)
+    DeliverThenStall,
     /// an unmodified frame recorded anywhere (own frame = reflection, other session = replay,
     /// other kind = kind confusion)
     Subst { from: FrameRef },
@@ -437,9 +441,11 @@ impl Exec<'_> {
 
     fn source_of(sc: &Scenario, e: usize, p: usize) -> Option<FrameRef> {
         match &sc.decisions[e][p] {
-            Decision::Deliver | Decision::DelayShort { .. } | Decision::DelayPastTimeout => {
-                sc.endpoints[e].peer.map(|q| FrameRef { ep: q, kind: p })
-            }
+            Decision::Deliver
+            | Decision::DelayShort { .. }
+            | Decision::DelayPastTimeout
+            | Decision::DeliverThenReset
+            | Decision::DeliverThenStall => sc.endpoints[e].peer.map(|q| FrameRef { ep: q, kind: p }),
             Decision::Subst { from } => Some(*from),
             Decision::Mutate { from, .. } | Decision::Wire { from, .. } => {
                 from.or(sc.endpoints[e].peer.map(|q| FrameRef { ep: q, kind: p }))
@@ -508,7 +514,12 @@ impl Exec<'_> {
             // ours (genuine routing), or has nothing to substitute and stays silent
             inj.class = 12;
             inj.source = None;
-            if d.is_passive() || matches!(d, Decision::DelayPastTimeout) {
+            if d.is_passive()
+                || matches!(
+                    d,
+                    Decision::DelayPastTimeout | Decision::DeliverThenReset | Decision::DeliverThenStall
+                )
+            {
                 inj.detail = "peer-gone: connection closed".into();
                 eps[e].handle.close();
             } else {
@@ -550,6 +561,20 @@ impl Exec<'_> {
                     inj.class = 4;
                     inj.detail = "close".into();
                     eps[e].handle.close();
+                }
+                Decision::DeliverThenReset | Decision::DeliverThenStall => {
+                    inj.bytes = src_bytes.unwrap();
+                    inj.framed = true;
+                    inj.class = 4;
+                    if matches!(d, Decision::DeliverThenReset) {
+                        inj.detail = "deliver, then reset".into();
+                        eps[e].handle.break_writes();
+                    } else {
+                        inj.detail = "deliver, then stop reading".into();
+                        eps[e].handle.stall_writes();
+                        // nothing more can be handed over until the endpoint gives up
+                        eps[e].starved = p == 0;
+                    }
                 }
                 Decision::Subst { from } => {
                     inj.bytes = src_bytes.unwrap();
